@@ -469,7 +469,7 @@ func c10Overflow(c *Ctx, sites []*ctrSite) {
 				if !ok || len(ret.Results) != 3 {
 					return false
 				}
-				k, ok := ret.Results[2].(*ssa.Const)
+				k, ok := unspill(ret, 2).(*ssa.Const)
 				if !ok {
 					return true // a non-constant failure reason after an increment
 				}
@@ -1045,7 +1045,10 @@ func c10CounterStepExact(c *Ctx, rule string) {
 			return isK && ((bo.Op == token.ADD && k == spec.step) || (bo.Op == token.SUB && k == -spec.step))
 		}
 		bad := existsPathEdges(fn, nil, isReturn, isStep, func(from, to *ssa.BasicBlock) bool {
-			return !unlimitedEdge(from, to) && !casStepEdge(from, to)
+			// (until repair 70 the step could be skipped for an unlimited resource; the limit can change at runtime while
+			// counted requests are in flight, so the counter moves on every path now)
+			_ = unlimitedEdge
+			return !casStepEdge(from, to)
 		})
 		nstep := len(instrsWhere(fn, isStep))
 		ncas := 0
@@ -1060,6 +1063,6 @@ func c10CounterStepExact(c *Ctx, rule string) {
 		if bad != nil {
 			pos = nearestPos(bad)
 		}
-		c.Check(rule, funcKey(fn)+":counter-step-exact", pos, bad == nil && nstep+ncas >= 1, fmt.Sprintf("every path changes `current` by %+d, except for an unlimited resource", spec.step), fmt.Sprintf("(*resource).%s can return without changing the counter by %+d although the resource is limited (a saturating or clamping counter): when admissions race past CanCreate one side of an Increase/Decrease pair is swallowed, the gauge under-counts what is in flight and the limit admits more than its threshold", spec.name, spec.step))
+		c.Check(rule, funcKey(fn)+":counter-step-exact", pos, bad == nil && nstep+ncas >= 1, fmt.Sprintf("every path changes `current` by %+d", spec.step), fmt.Sprintf("(*resource).%s can return without changing the counter by %+d (a saturating, clamping or limit-dependent counter): when admissions race past CanCreate, or when the limit is changed at runtime while requests are in flight, one side of an Increase/Decrease pair is swallowed - the counter stays above zero with nothing in flight (the breaker stays open) or goes below zero (the limit is not enforced)", spec.name, spec.step))
 	}
 }
